@@ -1,5 +1,6 @@
 use crate::rt::{PropSpec, Tier};
 
+pub mod c01;
 pub mod c02;
 pub mod c03;
 pub mod c04;
@@ -31,5 +32,5 @@ pub fn shards_1(_t: Tier) -> usize {
 }
 
 pub fn registry() -> Vec<PropSpec> {
-    vec![c02::spec(), c03::spec(), c04::spec(), c05::spec(), c06::spec(), c07::spec(), c08::spec(), c09::spec(), c10::spec(), c11::spec(), c12::spec(), c13::spec(), c14::spec(), c15::spec(), c16::spec(), c17::spec(), c18::spec(), c19::spec(), c20::spec()]
+    vec![c01::spec(), c02::spec(), c03::spec(), c04::spec(), c05::spec(), c06::spec(), c07::spec(), c08::spec(), c09::spec(), c10::spec(), c11::spec(), c12::spec(), c13::spec(), c14::spec(), c15::spec(), c16::spec(), c17::spec(), c18::spec(), c19::spec(), c20::spec()]
 }
